@@ -39,7 +39,7 @@ func c18hBodyLines(body *ast.BlockStmt) []string {
 	var out []string
 	for _, l := range strings.Split(b.String(), "\n") {
 		l = strings.Join(strings.Fields(l), " ")
-		if l != "" {
+		if l != "" && !strings.HasPrefix(l, "//") {
 			out = append(out, l)
 		}
 	}
@@ -445,6 +445,11 @@ func (t *c18hTr) expr(e ast.Expr, ctx string) (c18hVal, error) {
 				return c18hVal{lean: "(" + l.lean + " - " + r.lean + ")", typ: l.typ, subL: l.lean, subR: r.lean}, nil
 			}
 			return c18hVal{lean: "((" + l.lean + " + " + c18hPow(w) + " - " + r.lean + ") % " + c18hPow(w) + ")", typ: l.typ}, nil
+		case token.MUL:
+			if w == 0 {
+				return c18hVal{lean: "(" + l.lean + " * " + r.lean + ")", typ: l.typ}, nil
+			}
+			return c18hVal{lean: "((" + l.lean + " * " + r.lean + ") % " + c18hPow(w) + ")", typ: l.typ}, nil
 		case token.QUO:
 			return c18hVal{lean: "(" + l.lean + " / " + r.lean + ")", typ: l.typ}, nil
 		case token.REM:
